@@ -105,6 +105,11 @@ func init() {
 // operation without being durably blocked: the channel does not belong to the bubble.
 func unsimulable(stacks string) string {
 	for _, g := range strings.Split(stacks, "\n\n") {
+		if strings.Contains(g, "verifrt.Yield") && strings.Contains(g, "time.Sleep") && strings.Contains(g, "synctest bubble") {
+			// the injected stall itself holds something every other goroutine needs: fake
+			// time cannot advance past it. A wedge of the fault injector, not of the service.
+			return "the injected handler stall (verifrt.Yield -> time.Sleep) wedged the bubble: goroutines that are not durably blocked wait for something the sleeper holds"
+		}
 		head := g
 		if i := strings.IndexByte(g, '\n'); i >= 0 {
 			head = g[:i]
@@ -499,7 +504,7 @@ func (w *world) deliver(cc *clientConn, s *sent, wire []byte, cuts []int, gaps [
 			s.secretAt = len(w.rd.Log)
 			s.rdPos, s.rdCpos = w.rd.State()
 			verifrt.ResetMeter(workCap)
-			if w.stallAt > 0 {
+			if w.stallAt > 0 && os.Getenv("VERIF_NOSTALL") == "" {
 				verifrt.SetStall(w.stallAt, w.stallDur)
 			}
 		}
